@@ -12,6 +12,8 @@ rng = ck.rng
 pr = ck.prove()
 
 VARIANTS = [p + g + s for p in "CP" for g in "GU" for s in "SN"]
+# "V": the unguarded classes driven outside their key precondition, the way multiway_merge_loser_tree_combined does
+GENERAL = [p + "V" + s for p in "CP" for s in "SN"]
 
 # ---------------------------------------------------------------- generators
 def seq_txt(s):
@@ -42,7 +44,33 @@ def exhaustive(k, univ, maxlen, out, hist):
                 out.append(head + " ".join(tup))
     hist["exhaustive k=%d keys<=%d len<=%d" % (k, univ, maxlen)] = True
 
+def exhaustive_general(k, univ, maxlen, out, hist):
+    """unguarded classes, keys 1..univ, sentinel anywhere in 1..univ (keys above, equal to and below it)"""
+    ss = all_seqs(univ, 1, maxlen)
+    for v in GENERAL:
+        for sent in range(1, univ + 1):
+            head = "%s %d " % (v, sent)
+            for tup in itertools.product(ss, repeat=k):
+                out.append(head + " ".join(tup))
+    hist["exhaustive any-keys k=%d keys<=%d len<=%d" % (k, univ, maxlen)] = True
+
+def random_general(rng):
+    v = rng.choice(GENERAL)
+    k = rng.choice([1, 2, 3, 4, 5, 6, 7, 8, 9, 16, 17, 33])
+    univ = rng.choice([2, 3, 5, 50])
+    sent = rng.range(1, univ)
+    maxlen = rng.choice([3, 8, 20])
+    seqs = []
+    for _ in range(k):
+        s = sorted(rng.range(1, univ) for _ in range(rng.range(1, maxlen)))
+        if rng.chance(1, 3):
+            s = [rng.range(1, univ) for _ in s]
+        seqs.append(s)
+    return case_txt(v, sent, seqs)
+
 def random_case(rng):
+    if rng.chance(1, 5):
+        return random_general(rng)
     v = rng.choice(VARIANTS)
     guarded = v[1] == "G"
     k = rng.choice([1, 2, 3, 4, 5, 6, 7, 8, 9, 16, 17, 17, 16, 9, 15, 31, 33])
@@ -79,12 +107,20 @@ else:
     for k in (5, 6, 7, 8):
         exhaustive(k, 2, 1, cases, hist)
     exhaustive(9, 1, 1, cases, hist)
+    exhaustive_general(1, 3, 3, cases, hist)
+    exhaustive_general(2, 3, 3, cases, hist)
+    exhaustive_general(3, 3, 2, cases, hist)
+    exhaustive_general(3, 2, 3, cases, hist)
+    exhaustive_general(5, 2, 1, cases, hist)
     if ck.thorough():
         exhaustive(3, 3, 3, cases, hist)
         exhaustive(4, 2, 3, cases, hist)
         exhaustive(4, 3, 2, cases, hist)
         exhaustive(5, 2, 2, cases, hist)
         exhaustive(9, 2, 1, cases, hist)
+        exhaustive_general(3, 3, 3, cases, hist)
+        exhaustive_general(4, 2, 3, cases, hist)
+        exhaustive_general(9, 2, 1, cases, hist)
     nexh = len(cases) - ncorpus
     NR = 150000 if ck.thorough() else 20000
     for _ in range(NR):
@@ -123,7 +159,7 @@ def canon(v, line):
 found = False
 exe, log = ck.build_cpp("c09_harness", ["harness/C09/lt_harness.cpp"])
 drv, dlog = ck.ocaml_driver("C09")
-stats = {v: 0 for v in VARIANTS}
+stats = {v: 0 for v in VARIANTS + GENERAL}
 kstats = {}
 nontrivial = set()
 samples = []
@@ -162,7 +198,7 @@ else:
             if idx >= len(model):
                 break
             a = impl[idx].strip() if idx < len(impl) else "<missing>"
-            b = model[idx].strip()
+            b = model[idx].rstrip()
             v = c[:3]
             stats[v] += 1
             kk = len(c.split()) - 2
@@ -219,7 +255,9 @@ ck.finish({
     "round_up_to_power_of_two(ik) is modelled by its specification 2^ceil(log2 ik) (its word-level code is property C20)",
     "copy and pointer classes share the model: key copy + sup flag <-> key pointer / nullptr; slots the constructors leave "
     "indeterminate are modelled by the padding value (each is written before it is read)",
-    "unguarded classes: documented precondition = no player runs out of keys and the sentinel is not less than any real key",
+    "unguarded classes: documented precondition = no player runs out of keys and the sentinel is not less than any real key; "
+    "class letter V = the same classes with keys above the sentinel, consulted only while some current key beats the sentinel "
+    "(the regime of multiway_merge_loser_tree_combined; theorems C09_unguarded_any_keys_*)",
     "comparator is a strict weak order (Common.Order.SWO)",
     "extraction: ExtrOcamlBasic only; N/positive/list stay Coq inductives",
 ])
